@@ -28,7 +28,7 @@ ASSUMPTIONS = ["Redis and RabbitMQ are wire-level fakes speaking the real protoc
                "argument payloads starting with the reserved bucket marker are excluded (per the statement)",
                "inputs a broker refuses loudly at enqueue are counted under refused_inputs, not judged"]
 EVAL_COUNTER = "items_judged"
-REQUIRED = ["items_judged", "jobs_roundtripped", "bucket_transport", "codec_roundtrips", "keys_checked", "durations_over_10y", "reused_bucket_ids", "slow_argument_store_runs", "job_twins_judged", "flushes_judged"]
+REQUIRED = ["items_judged", "jobs_roundtripped", "bucket_transport", "codec_roundtrips", "keys_checked", "durations_over_10y", "reused_bucket_ids", "slow_argument_store_runs", "job_twins_judged", "flushes_judged", "default_id_retries"]
 CASE_TIMEOUT = 150
 
 NAME_FIRST = string.ascii_letters + "_"
@@ -606,8 +606,44 @@ async def reuse_case(loop, case, out, stats, fps):
             if res is None or json.loads(res.data) != want:
                 out.append(V("field_mismatch", kind, "result/reused-result-id", f"job r{i}: Job.result holds {None if res is None else res.data[:100]}, expected the echo of {str(want)[:100]}"))
                 break
+        # jobs that leave every id to the library (no id, no args_id, no result_id), results on, one retry: the second
+        # attempt and a second message sent from the same Job object still get the enqueued arguments (both bucket brokers
+        # may well live in one store)
+        attempts = {}
+
+        async def flaky(**kwargs):
+            k = kwargs.get("n")
+            attempts.setdefault(k, []).append(kwargs)
+            if len(attempts[k]) == 1:
+                raise RuntimeError("first attempt fails")
+            return {"done": k}
+
+        r.actor(name="flaky")(flaky)
+        # (the running worker was built from the router before: give it a worker of its own)
         from rv.wl import fire_stop
 
+        fire_stop(loop)
+        await task
+        r2 = w.router(retry_policy=lambda retry_number=1: timedelta(seconds=0.2))
+        r2.actor(name="flaky")(flaky)
+        worker2 = w.worker([r2], tasks_limit=3, graceful_shutdown_time=3.0, handle_signals=[__import__("signal").SIGUSR1])
+        task = loop.create_task(run_worker(w, worker2, until=lambda: False, horizon=20.0, poll=0.1))
+        for n_ in (101, 102):
+            args = {"n": n_, "v": rjson(rnd, 2)}
+            job = Job("flaky", args=args, retries=1, use_args_bucketer=True, store_result=True, _connection=w.conn)
+            await job.enqueue()
+            for _ in range(200):
+                if len(attempts.get(n_, [])) >= 2:
+                    break
+                await asyncio.sleep(0.05)
+            stats["items_judged"] += 1
+            stats["default_id_retries"] += 1
+            want = json.loads(job.args)
+            got = attempts.get(n_, [])
+            if len(got) < 2 or got[1] != want:
+                out.append(V("field_mismatch", kind, "payload/second-attempt-with-default-ids", f"a job with library-chosen ids, results on, one retry: attempts received {[str(g)[:80] for g in got]}, enqueued {str(want)[:80]}; "
+                                                                                                 f"place {w.rig.snapshot()}"))
+                break
         fire_stop(loop)
         await task
         stats["unknown_server_commands"] += w.rig.unknown_commands()
